@@ -506,10 +506,12 @@ def ramp_profiles(chk, tier, seed):
             continue
         pos = behs.get(c['id'], [])
         prefix_keys = set()
+        prefix_keys_free = set()      # the same prefixes with the start flags left free (pattern and outputs only)
         for b in pos:
             chk.cnt['eval_pos'] += 1
             for n in range(len(b['steps']) + 1):
                 prefix_keys.add((n, tuple(sorted(real.pins(b['steps'][:n]).items()))))
+                prefix_keys_free.add((n, tuple(sorted(real.pins(b['steps'][:n], what=('on', 'p')).items()))))
             stt, val, x = real.prob.solve(real.pins(b['steps']))
             if stt != 'optimal':
                 chk.violation(dict(sel, check='replay_positive'), 'behaviour of the profile automaton is infeasible in the implementation', dict(cfg=c, behaviour=b))
@@ -526,6 +528,15 @@ def ramp_profiles(chk, tier, seed):
                 last_step = b['at'] == c['T']
                 chk.violation(dict(sel, check='replay_negative', fault=b['fault'], at_last_step=last_step),
                               'near-miss (%s at step %d of %d) is feasible in the implementation' % (b['fault'], b['at'], c['T']), dict(cfg=c, behaviour=b))
+            elif b['fault'] in ('cap', 'start_profile', 'shutdown_profile') and (c['sr'] or c['dr']):
+                # an output outside its bounds must not become feasible by FLAGGING differently either (a start flagged while the plant is on would
+                # re-apply the start profile): the same prefix with the start flags left free (with profiles the flags are defined exactly)
+                pf_ = real.pins(b['steps'], what=('on', 'p'))
+                if (len(b['steps']), tuple(sorted(pf_.items()))) not in prefix_keys_free:
+                    chk.cnt['eval_neg_flags_free'] += 1
+                    if real.prob.solve(pf_)[0] == 'optimal':
+                        chk.violation(dict(sel, check='replay_negative_flags_free', fault=b['fault']),
+                                      'near-miss (%s at step %d of %d) becomes feasible when the start flags are left free' % (b['fault'], b['at'], c['T']), dict(cfg=c, behaviour=b))
         reach = {tuple(bool(s_['on']) for s_ in b['steps']) for b in pos}
         for pat in itertools.product((False, True), repeat=c['T']):
             chk.cnt['eval_patterns'] += 1
